@@ -1042,7 +1042,13 @@ class EventBus:
         # Use handler id as key to preserve all handlers even with duplicate names
         filtered_handlers: dict[PythonIdStr, EventHandler] = {}
         for handler in applicable_handlers:
-            if self._would_create_loop(event, handler):
+            try:
+                would_create_loop = self._would_create_loop(event, handler)
+            except RuntimeError as e:
+                # recursion guard tripped: fail this handler instead of aborting (and never completing) the whole event
+                event.event_result_update(handler=handler, eventbus=self, error=e)
+                continue
+            if would_create_loop:
                 continue
             else:
                 handler_id = get_handler_id(handler, self)
